@@ -97,6 +97,8 @@ Lemma set_array_inv l a e s : Inv l s -> Inv l (set_array a e s).
 Proof. intros [Hacct Honce Hcached Hinprog Hres0 Hres1 Hlinj Hlrange Hnext Hcarr Htrs Htrd]. constructor; cbn; auto. Qed.
 Lemma note_write_inv l a w s : Inv l s -> Inv l (note_write a w s).
 Proof. intros [Hacct Honce Hcached Hinprog Hres0 Hres1 Hlinj Hlrange Hnext Hcarr Htrs Htrd]. constructor; cbn; auto. Qed.
+Lemma set_fuzzy_inv l s : Inv l s -> Inv l (set_fuzzy s).
+Proof. intros [Hacct Honce Hcached Hinprog Hres0 Hres1 Hlinj Hlrange Hnext Hcarr Htrs Htrd]. constructor; cbn; auto. Qed.
 Lemma note_compiled_inv l n s : Inv l s -> Inv l (note_compiled n s).
 Proof. intros [Hacct Honce Hcached Hinprog Hres0 Hres1 Hlinj Hlrange Hnext Hcarr Htrs Htrd]. constructor; cbn; auto. Qed.
 
@@ -280,56 +282,58 @@ Section Run.
     - injection E as <- <-. split; [apply log_req_inv; exact H|intros m b Hm; exact Hm].
   Qed.
 
-  Lemma from_one_ok run : run_ok run -> forall c ps nm s r s',
-    Inv (c_inprog c) s -> from_one run T exts c ps nm s = (r, s') -> Inv (c_inprog c) s' /\ ext s s'.
+  Lemma from_one_ok run : run_ok run -> forall c ps multi nm s r s',
+    Inv (c_inprog c) s -> from_one run T exts c ps multi nm s = (r, s') -> Inv (c_inprog c) s' /\ ext s s'.
   Proof.
-    intros Hrun c ps nm s r s' H E. unfold from_one in E.
+    intros Hrun c ps multi nm s r s' H E. unfold from_one in E.
     destruct (import_with run T exts c (from_name ps nm) s) as [r1 s1] eqn:E1.
     destruct (import_with_ok run Hrun c _ s r1 s1 H E1) as (H1 & X1).
-    destruct r1 as [id a|e| |]; try (injection E as <- <-; split; assumption).
-    destruct (import_with run T exts c (from_parent ps) s1) as [r2 s2] eqn:E2.
-    destruct (import_with_ok run Hrun c _ s1 r2 s2 H1 E2) as (H2 & X2).
+    destruct r1 as [id a ran|e ran1| |]; try (injection E as <- <-; split; assumption).
+    set (s1' := if ran1 && multi then set_fuzzy s1 else s1) in *.
+    assert (H1' : Inv (c_inprog c) s1') by (unfold s1'; destruct (ran1 && multi); [apply set_fuzzy_inv|]; exact H1).
+    assert (X1' : ext s s1') by (unfold s1'; destruct (ran1 && multi); exact X1).
+    destruct (import_with run T exts c (from_parent ps) s1') as [r2 s2] eqn:E2.
+    destruct (import_with_ok run Hrun c _ s1' r2 s2 H1' E2) as (H2 & X2).
     assert (X : ext s s2) by (eapply ext_trans; eassumption).
-    destruct r2 as [id a|e2| |]; try (injection E as <- <-; split; assumption).
+    destruct r2 as [id a ran|e2 ran2| |]; try (injection E as <- <-; split; assumption).
     destruct (walk (VMod id (from_parent ps) a) [nm] s2); injection E as <- <-; split; assumption.
   Qed.
 
-  Lemma from_all_ok run : run_ok run -> forall c ps names s vs o s',
-    Inv (c_inprog c) s -> from_all run T exts c ps names s = (vs, o, s') -> Inv (c_inprog c) s' /\ ext s s'.
+  Lemma from_all_ok run : run_ok run -> forall c ps multi names stk s vs o s',
+    Inv (c_inprog c) s -> from_all run T exts c ps multi names stk s = (vs, o, s') -> Inv (c_inprog c) s' /\ ext s s'.
   Proof.
-    intros Hrun c ps names. induction names as [|nm r IH]; intros s vs o s' H E; cbn [from_all] in E.
+    intros Hrun c ps multi names. induction names as [|nm r IH]; intros stk s vs o s' H E; cbn [from_all] in E.
     - injection E as <- <- <-. split; [exact H|apply ext_refl].
-    - destruct (from_one run T exts c ps nm s) as [r1 s1] eqn:E1.
-      destruct (from_one_ok run Hrun c ps nm s r1 s1 H E1) as (H1 & X1).
-      destruct r1 as [[v|e]|o1]; try (injection E as <- <- <-; split; assumption).
-      destruct (from_all run T exts c ps r s1) as [[vs2 o2] s2] eqn:E2.
-      destruct (IH s1 vs2 o2 s2 H1 E2) as (H2 & X2).
-      destruct vs2; injection E as <- <- <-; (split; [exact H2|eapply ext_trans; eassumption]).
+    - destruct (from_one run T exts c ps multi nm s) as [r1 s1] eqn:E1.
+      destruct (from_one_ok run Hrun c ps multi nm s r1 s1 H E1) as (H1 & X1).
+      destruct r1 as [[pushed|e]|o1]; try (injection E as <- <- <-; split; assumption).
+      destruct (IH _ s1 vs o s' H1 E) as (H2 & X2).
+      split; [exact H2|eapply ext_trans; eassumption].
   Qed.
 
   Lemma step_with_ok run : run_ok run -> forall c loc a s o loc' s',
     Inv (c_inprog c) s -> step_with run T exts c loc a s = (o, loc', s') -> Inv (c_inprog c) s' /\ ext s s'.
   Proof.
-    intros Hrun c loc a s o loc' s' H E. destruct a as [path alias|ps imps|x v|p x v|e| |body|k body]; cbn [step_with] in E.
+    intros Hrun c loc a s o loc' s' H E. destruct a as [path alias|ps imps|x v|dx|p x v|e| |body|k body]; cbn [step_with] in E.
     - (* import *)
       destruct (import_with run T exts c path s) as [r1 s1] eqn:E1.
       destruct (import_with_ok run Hrun c _ s r1 s1 H E1) as (H1 & X1).
-      destruct r1 as [id a|e| |]; try (injection E as <- <- <-; split; assumption).
+      destruct r1 as [id a ran|e ran| |]; try (injection E as <- <- <-; split; assumption).
       destruct (bind c loc _ (VMod id path a) s1) as [loc2 s2] eqn:Eb.
       destruct (bind_inv _ c loc _ _ s1 loc2 s2 H1 Eb) as (H2 & X2).
       injection E as <- <- <-. split; [exact H2|eapply ext_trans; eassumption].
     - (* from import *)
-      destruct (from_all run T exts c ps (rev (map fst imps)) s) as [[vs o1] s1] eqn:E1.
-      destruct (from_all_ok run Hrun c ps _ s vs o1 s1 H E1) as (H1 & X1).
+      destruct (from_all run T exts c ps (Nat.ltb 1 (length (map fst imps))) (rev (map fst imps)) [] s) as [[vs o1] s1] eqn:E1.
+      destruct (from_all_ok run Hrun c ps _ _ _ s vs o1 s1 H E1) as (H1 & X1).
       destruct vs as [vs|]; [|injection E as <- <- <-; split; assumption].
-      destruct (bind_all c loc (map (from_alias imps) (map fst imps)) (rev vs) s1) as [loc2 s2] eqn:Eb.
-      destruct (bind_all_inv _ c _ loc (rev vs) s1 loc2 s2 H1 Eb) as (H2 & X2).
+      destruct (bind_all c loc (map (from_alias imps) (map fst imps)) vs s1) as [loc2 s2] eqn:Eb.
+      destruct (bind_all_inv _ c _ loc vs s1 loc2 s2 H1 Eb) as (H2 & X2).
       injection E as <- <- <-. split; [exact H2|eapply ext_trans; eassumption].
     - injection E as <- <- <-. split; [apply note_write_inv, set_array_inv; exact H|intros m b Hm; exact Hm].
-    - destruct (eval_path c loc p s) as [[z|id n0 a|b|]|e]; try (injection E as <- <- <-; split; [exact H|apply ext_refl]).
-      destruct (lookup x (arr_env a s)); injection E as <- <- <-.
-      + split; [apply set_array_inv; exact H|intros m b Hm; exact Hm].
-      + split; [exact H|apply ext_refl].
+    - injection E as <- <- <-. split; [apply set_array_inv; exact H|intros m b Hm; exact Hm].
+    - destruct (eval_path c loc p s) as [[z|id n0 a|b| |]|e]; try (injection E as <- <- <-; split; [exact H|apply ext_refl]).
+      destruct (lookup (setter x) (arr_env a s)) as [[| | | |]|]; injection E as <- <- <-;
+        first [split; [exact H|apply ext_refl]|split; [apply set_array_inv; exact H|intros m b Hm; exact Hm]].
     - destruct e as [p|p q].
       + destruct (eval_path c loc p s); injection E as <- <- <-.
         * split; [apply log_obs_inv; exact H|intros m b Hm; exact Hm].
@@ -457,56 +461,57 @@ Section Reqs.
     - injection E as <- <-. intros m r0 [X|Hin]; [injection X as <- <-; exact Hn|exact (H m r0 Hin)].
   Qed.
 
-  Lemma from_one_reqs run : run_ok2 run -> forall c ps nm s r s',
+  Lemma from_one_reqs run : run_ok2 run -> forall c ps multi nm s r s',
     ps <> [] -> Forall name_ok ps -> name_ok nm ->
-    reqs_ok s -> from_one run T exts c ps nm s = (r, s') -> reqs_ok s'.
+    reqs_ok s -> from_one run T exts c ps multi nm s = (r, s') -> reqs_ok s'.
   Proof.
-    intros Hrun c ps nm s r s' NE Hps Hnm H E. unfold from_one in E.
+    intros Hrun c ps multi nm s r s' NE Hps Hnm H E. unfold from_one in E.
     destruct (import_with run T exts c (from_name ps nm) s) as [r1 s1] eqn:E1.
     pose proof (import_with_reqs run Hrun c _ s r1 s1 (from_name_ok ps nm NE Hps Hnm) H E1) as H1.
-    destruct r1 as [id a|e| |]; try (injection E as <- <-; exact H1).
-    destruct (import_with run T exts c (from_parent ps) s1) as [r2 s2] eqn:E2.
-    pose proof (import_with_reqs run Hrun c _ s1 r2 s2 (from_parent_ok ps NE Hps) H1 E2) as H2.
-    destruct r2 as [id a|e2| |]; try (injection E as <- <-; exact H2).
+    destruct r1 as [id a ran|e ran1| |]; try (injection E as <- <-; exact H1).
+    set (s1' := if ran1 && multi then set_fuzzy s1 else s1) in *.
+    assert (H1' : reqs_ok s1') by (unfold s1'; destruct (ran1 && multi); exact H1).
+    destruct (import_with run T exts c (from_parent ps) s1') as [r2 s2] eqn:E2.
+    pose proof (import_with_reqs run Hrun c _ s1' r2 s2 (from_parent_ok ps NE Hps) H1' E2) as H2.
+    destruct r2 as [id a ran|e2 ran2| |]; try (injection E as <- <-; exact H2).
     destruct (walk (VMod id (from_parent ps) a) [nm] s2); injection E as <- <-; exact H2.
   Qed.
 
-  Lemma from_all_reqs run : run_ok2 run -> forall c ps names s vs o s',
+  Lemma from_all_reqs run : run_ok2 run -> forall c ps multi names stk s vs o s',
     ps <> [] -> Forall name_ok ps -> Forall name_ok names ->
-    reqs_ok s -> from_all run T exts c ps names s = (vs, o, s') -> reqs_ok s'.
+    reqs_ok s -> from_all run T exts c ps multi names stk s = (vs, o, s') -> reqs_ok s'.
   Proof.
-    intros Hrun c ps names. induction names as [|nm r IH]; intros s vs o s' NE Hps Hn H E; cbn [from_all] in E.
+    intros Hrun c ps multi names. induction names as [|nm r IH]; intros stk s vs o s' NE Hps Hn H E; cbn [from_all] in E.
     - injection E as <- <- <-. exact H.
     - inversion Hn as [|? ? Hnm Hr]; subst.
-      destruct (from_one run T exts c ps nm s) as [r1 s1] eqn:E1.
-      pose proof (from_one_reqs run Hrun c ps nm s r1 s1 NE Hps Hnm H E1) as H1.
-      destruct r1 as [[v|e]|o1]; try (injection E as <- <- <-; exact H1).
-      destruct (from_all run T exts c ps r s1) as [[vs2 o2] s2] eqn:E2.
-      pose proof (IH s1 vs2 o2 s2 NE Hps Hr H1 E2) as H2.
-      destruct vs2; injection E as <- <- <-; exact H2.
+      destruct (from_one run T exts c ps multi nm s) as [r1 s1] eqn:E1.
+      pose proof (from_one_reqs run Hrun c ps multi nm s r1 s1 NE Hps Hnm H E1) as H1.
+      destruct r1 as [[pushed|e]|o1]; try (injection E as <- <- <-; exact H1).
+      exact (IH _ s1 vs o s' NE Hps Hr H1 E).
   Qed.
 
   Lemma step_with_reqs run : run_ok2 run -> forall c loc a s o loc' s',
     action_accepted a = true -> reqs_ok s -> step_with run T exts c loc a s = (o, loc', s') -> reqs_ok s'.
   Proof.
     intros Hrun c loc a s o loc' s' Ha H E.
-    destruct a as [path alias|ps imps|x v|p x v|e| |body|k body]; cbn [step_with] in E.
+    destruct a as [path alias|ps imps|x v|dx|p x v|e| |body|k body]; cbn [step_with] in E.
     - destruct (import_with run T exts c path s) as [r1 s1] eqn:E1.
       pose proof (import_with_reqs run Hrun c _ s r1 s1 (valid_path_name_ok path Ha) H E1) as H1.
-      destruct r1 as [id a|e| |]; try (injection E as <- <- <-; exact H1).
+      destruct r1 as [id a ran|e ran| |]; try (injection E as <- <- <-; exact H1).
       destruct (bind c loc _ (VMod id path a) s1) as [loc2 s2] eqn:Eb.
       injection E as <- <- <-. eapply reqs_ok_same; [eapply bind_trace; eassumption|exact H1].
     - destruct (from_accepted ps imps Ha) as (NE & Hps & Hi).
-      destruct (from_all run T exts c ps (rev (map fst imps)) s) as [[vs o1] s1] eqn:E1.
+      destruct (from_all run T exts c ps (Nat.ltb 1 (length (map fst imps))) (rev (map fst imps)) [] s) as [[vs o1] s1] eqn:E1.
       assert (Hn : Forall name_ok (rev (map fst imps))).
       { apply Forall_rev. apply Forall_map. exact Hi. }
-      pose proof (from_all_reqs run Hrun c ps _ s vs o1 s1 NE Hps Hn H E1) as H1.
+      pose proof (from_all_reqs run Hrun c ps _ _ _ s vs o1 s1 NE Hps Hn H E1) as H1.
       destruct vs as [vs|]; [|injection E as <- <- <-; exact H1].
-      destruct (bind_all c loc (map (from_alias imps) (map fst imps)) (rev vs) s1) as [loc2 s2] eqn:Eb.
+      destruct (bind_all c loc (map (from_alias imps) (map fst imps)) vs s1) as [loc2 s2] eqn:Eb.
       injection E as <- <- <-. eapply reqs_ok_same; [eapply bind_all_trace; eassumption|exact H1].
     - injection E as <- <- <-. exact H.
-    - destruct (eval_path c loc p s) as [[z|id n0 a|b|]|e]; try (injection E as <- <- <-; exact H).
-      destruct (lookup x (arr_env a s)); injection E as <- <- <-; exact H.
+    - injection E as <- <- <-. exact H.
+    - destruct (eval_path c loc p s) as [[z|id n0 a|b| |]|e]; try (injection E as <- <- <-; exact H).
+      destruct (lookup (setter x) (arr_env a s)) as [[| | | |]|]; injection E as <- <- <-; exact H.
     - destruct e as [p|p q].
       + destruct (eval_path c loc p s); injection E as <- <- <-; [|exact H].
         intros m r0 [X|Hin]; [discriminate|exact (H m r0 Hin)].
@@ -615,52 +620,53 @@ Section Ranked.
     - injection E as <- <-. nr.
   Qed.
 
-  Lemma from_one_noreent run : run_ok3 run -> forall c ps nm s r s',
+  Lemma from_one_noreent run : run_ok3 run -> forall c ps multi nm s r s',
     below c [from_name ps nm; from_parent ps] ->
-    from_one run T exts c ps nm s = (r, s') -> noreent s s'.
+    from_one run T exts c ps multi nm s = (r, s') -> noreent s s'.
   Proof.
-    intros Hrun c ps nm s r s' Hb E. unfold from_one in E.
+    intros Hrun c ps multi nm s r s' Hb E. unfold from_one in E.
     destruct (import_with run T exts c (from_name ps nm) s) as [r1 s1] eqn:E1.
     assert (N1 : noreent s s1).
     { eapply import_with_noreent; [exact Hrun| |exact E1]. intros m Hm. apply (Hb (from_name ps nm)); [left; reflexivity|exact Hm]. }
-    destruct r1 as [id a|e| |]; try (injection E as <- <-; exact N1).
-    destruct (import_with run T exts c (from_parent ps) s1) as [r2 s2] eqn:E2.
-    assert (N2 : noreent s1 s2).
+    destruct r1 as [id a ran|e ran1| |]; try (injection E as <- <-; exact N1).
+    set (s1' := if ran1 && multi then set_fuzzy s1 else s1) in *.
+    assert (N1' : noreent s s1') by (unfold s1'; destruct (ran1 && multi); exact N1).
+    destruct (import_with run T exts c (from_parent ps) s1') as [r2 s2] eqn:E2.
+    assert (N2 : noreent s1' s2).
     { eapply import_with_noreent; [exact Hrun| |exact E2]. intros m Hm. apply (Hb (from_parent ps)); [right; left; reflexivity|exact Hm]. }
-    pose proof (noreent_trans _ _ _ N1 N2) as N.
-    destruct r2 as [id a|e2| |]; try (injection E as <- <-; exact N).
+    pose proof (noreent_trans _ _ _ N1' N2) as N.
+    destruct r2 as [id a ran|e2 ran2| |]; try (injection E as <- <-; exact N).
     destruct (walk (VMod id (from_parent ps) a) [nm] s2); injection E as <- <-; exact N.
   Qed.
 
-  Lemma from_all_noreent run : run_ok3 run -> forall c ps names s vs o s',
+  Lemma from_all_noreent run : run_ok3 run -> forall c ps multi names stk s vs o s',
     below c (from_parent ps :: map (from_name ps) names) ->
-    from_all run T exts c ps names s = (vs, o, s') -> noreent s s'.
+    from_all run T exts c ps multi names stk s = (vs, o, s') -> noreent s s'.
   Proof.
-    intros Hrun c ps names. induction names as [|nm r IH]; intros s vs o s' Hb E; cbn [from_all] in E.
+    intros Hrun c ps multi names. induction names as [|nm r IH]; intros stk s vs o s' Hb E; cbn [from_all] in E.
     - injection E as <- <- <-. nr.
-    - destruct (from_one run T exts c ps nm s) as [r1 s1] eqn:E1.
+    - destruct (from_one run T exts c ps multi nm s) as [r1 s1] eqn:E1.
       assert (N1 : noreent s s1).
       { eapply from_one_noreent; [exact Hrun| |exact E1].
         intros n' [<-|[<-|[]]] m Hm; apply (Hb _); [right; left; reflexivity|exact Hm|left; reflexivity|exact Hm]. }
-      destruct r1 as [[v|e]|o1]; try (injection E as <- <- <-; exact N1).
-      destruct (from_all run T exts c ps r s1) as [[vs2 o2] s2] eqn:E2.
-      assert (N2 : noreent s1 s2).
-      { eapply IH; [|exact E2]. intros n' [<-|Hin] m Hm; apply (Hb _); [left; reflexivity|exact Hm|right; right; exact Hin|exact Hm]. }
-      destruct vs2; injection E as <- <- <-; eapply noreent_trans; eassumption.
+      destruct r1 as [[pushed|e]|o1]; try (injection E as <- <- <-; exact N1).
+      assert (N2 : noreent s1 s').
+      { eapply IH; [|exact E]. intros n' [<-|Hin] m Hm; apply (Hb _); [left; reflexivity|exact Hm|right; right; exact Hin|exact Hm]. }
+      eapply noreent_trans; eassumption.
   Qed.
 
   Lemma step_with_noreent run : run_ok3 run -> forall c loc a s o loc' s',
     below c (action_requests a) -> step_with run T exts c loc a s = (o, loc', s') -> noreent s s'.
   Proof.
     intros Hrun c loc a s o loc' s' Hb E.
-    destruct a as [path alias|ps imps|x v|p x v|e| |body|k body]; cbn [step_with] in E.
+    destruct a as [path alias|ps imps|x v|dx|p x v|e| |body|k body]; cbn [step_with] in E.
     - destruct (import_with run T exts c path s) as [r1 s1] eqn:E1.
       assert (N1 : noreent s s1).
       { eapply import_with_noreent; [exact Hrun| |exact E1]. intros m Hm. apply (Hb path); [left; reflexivity|exact Hm]. }
-      destruct r1 as [id a|e| |]; try (injection E as <- <- <-; exact N1).
+      destruct r1 as [id a ran|e ran| |]; try (injection E as <- <- <-; exact N1).
       destruct (bind c loc _ (VMod id path a) s1) as [loc2 s2] eqn:Eb.
       injection E as <- <- <-. eapply noreent_trans; [exact N1|eapply bind_noreent; eassumption].
-    - destruct (from_all run T exts c ps (rev (map fst imps)) s) as [[vs o1] s1] eqn:E1.
+    - destruct (from_all run T exts c ps (Nat.ltb 1 (length (map fst imps))) (rev (map fst imps)) [] s) as [[vs o1] s1] eqn:E1.
       assert (N1 : noreent s s1).
       { eapply from_all_noreent; [exact Hrun| |exact E1].
         intros n' Hin m Hm. apply (Hb n'); [|exact Hm]. cbn [action_requests].
@@ -668,11 +674,12 @@ Section Ranked.
         rewrite <- map_rev in Hin. rewrite map_map in Hin. apply in_map_iff in Hin. destruct Hin as (i & <- & Hi).
         apply in_map_iff. exists i. split; [reflexivity|]. apply in_rev. exact Hi. }
       destruct vs as [vs|]; [|injection E as <- <- <-; exact N1].
-      destruct (bind_all c loc (map (from_alias imps) (map fst imps)) (rev vs) s1) as [loc2 s2] eqn:Eb.
+      destruct (bind_all c loc (map (from_alias imps) (map fst imps)) vs s1) as [loc2 s2] eqn:Eb.
       injection E as <- <- <-. eapply noreent_trans; [exact N1|eapply bind_all_noreent; eassumption].
     - injection E as <- <- <-. nr.
-    - destruct (eval_path c loc p s) as [[z|id n0 a|b|]|e]; try (injection E as <- <- <-; nr).
-      destruct (lookup x (arr_env a s)); injection E as <- <- <-; nr.
+    - injection E as <- <- <-. nr.
+    - destruct (eval_path c loc p s) as [[z|id n0 a|b| |]|e]; try (injection E as <- <- <-; nr).
+      destruct (lookup (setter x) (arr_env a s)) as [[| | | |]|]; injection E as <- <- <-; nr.
     - destruct e as [p|p q].
       + destruct (eval_path c loc p s); injection E as <- <- <-; nr.
       + destruct (eval_path c loc p s); destruct (eval_path c loc q s); injection E as <- <- <-; nr.
@@ -779,54 +786,56 @@ Section Writes.
     - injection E as <- <-. exact W.
   Qed.
 
-  Lemma from_one_wlog run : run_ok run -> run_ok4 run -> forall c ps nm s r s',
-    Inv (c_inprog c) s -> wlog_ok s -> from_one run T exts c ps nm s = (r, s') -> wlog_ok s'.
+  Lemma from_one_wlog run : run_ok run -> run_ok4 run -> forall c ps multi nm s r s',
+    Inv (c_inprog c) s -> wlog_ok s -> from_one run T exts c ps multi nm s = (r, s') -> wlog_ok s'.
   Proof.
-    intros Hrun Hrun4 c ps nm s r s' H W E. unfold from_one in E.
+    intros Hrun Hrun4 c ps multi nm s r s' H W E. unfold from_one in E.
     destruct (import_with run T exts c (from_name ps nm) s) as [r1 s1] eqn:E1.
     destruct (import_with_ok T exts run Hrun c _ s r1 s1 H E1) as (H1 & X1).
     pose proof (import_with_wlog run Hrun Hrun4 c _ s r1 s1 H W E1) as W1.
-    destruct r1 as [id a|e| |]; try (injection E as <- <-; exact W1).
-    destruct (import_with run T exts c (from_parent ps) s1) as [r2 s2] eqn:E2.
-    pose proof (import_with_wlog run Hrun Hrun4 c _ s1 r2 s2 H1 W1 E2) as W2.
-    destruct r2 as [id a|e2| |]; try (injection E as <- <-; exact W2).
+    destruct r1 as [id a ran|e ran1| |]; try (injection E as <- <-; exact W1).
+    set (s1' := if ran1 && multi then set_fuzzy s1 else s1) in *.
+    assert (H1' : Inv (c_inprog c) s1') by (unfold s1'; destruct (ran1 && multi); [apply set_fuzzy_inv|]; exact H1).
+    assert (W1' : wlog_ok s1') by (unfold s1'; destruct (ran1 && multi); exact W1).
+    destruct (import_with run T exts c (from_parent ps) s1') as [r2 s2] eqn:E2.
+    pose proof (import_with_wlog run Hrun Hrun4 c _ s1' r2 s2 H1' W1' E2) as W2.
+    destruct r2 as [id a ran|e2 ran2| |]; try (injection E as <- <-; exact W2).
     destruct (walk (VMod id (from_parent ps) a) [nm] s2); injection E as <- <-; exact W2.
   Qed.
 
-  Lemma from_all_wlog run : run_ok run -> run_ok4 run -> forall c ps names s vs o s',
-    Inv (c_inprog c) s -> wlog_ok s -> from_all run T exts c ps names s = (vs, o, s') -> wlog_ok s'.
+  Lemma from_all_wlog run : run_ok run -> run_ok4 run -> forall c ps multi names stk s vs o s',
+    Inv (c_inprog c) s -> wlog_ok s -> from_all run T exts c ps multi names stk s = (vs, o, s') -> wlog_ok s'.
   Proof.
-    intros Hrun Hrun4 c ps names. induction names as [|nm r IH]; intros s vs o s' H W E; cbn [from_all] in E.
+    intros Hrun Hrun4 c ps multi names. induction names as [|nm r IH]; intros stk s vs o s' H W E; cbn [from_all] in E.
     - injection E as <- <- <-. exact W.
-    - destruct (from_one run T exts c ps nm s) as [r1 s1] eqn:E1.
-      destruct (from_one_ok T exts run Hrun c ps nm s r1 s1 H E1) as (H1 & X1).
-      pose proof (from_one_wlog run Hrun Hrun4 c ps nm s r1 s1 H W E1) as W1.
-      destruct r1 as [[v|e]|o1]; try (injection E as <- <- <-; exact W1).
-      destruct (from_all run T exts c ps r s1) as [[vs2 o2] s2] eqn:E2.
-      pose proof (IH s1 vs2 o2 s2 H1 W1 E2) as W2.
-      destruct vs2; injection E as <- <- <-; exact W2.
+    - destruct (from_one run T exts c ps multi nm s) as [r1 s1] eqn:E1.
+      destruct (from_one_ok T exts run Hrun c ps multi nm s r1 s1 H E1) as (H1 & X1).
+      pose proof (from_one_wlog run Hrun Hrun4 c ps multi nm s r1 s1 H W E1) as W1.
+      destruct r1 as [[pushed|e]|o1]; try (injection E as <- <- <-; exact W1).
+      exact (IH _ s1 vs o s' H1 W1 E).
   Qed.
 
   Lemma step_with_wlog run : run_ok run -> run_ok4 run -> forall c loc a s o loc' s',
     Inv (c_inprog c) s -> ctx_wf c s -> wlog_ok s -> step_with run T exts c loc a s = (o, loc', s') -> wlog_ok s'.
   Proof.
     intros Hrun Hrun4 c loc a s o loc' s' H F W E.
-    destruct a as [path alias|ps imps|x v|p x v|e| |body|k body]; cbn [step_with] in E.
+    destruct a as [path alias|ps imps|x v|dx|p x v|e| |body|k body]; cbn [step_with] in E.
     - destruct (import_with run T exts c path s) as [r1 s1] eqn:E1.
       pose proof (import_with_wlog run Hrun Hrun4 c _ s r1 s1 H W E1) as W1.
-      destruct r1 as [id a|e| |]; try (injection E as <- <- <-; exact W1).
+      destruct r1 as [id a ran|e ran| |]; try (injection E as <- <- <-; exact W1).
       destruct (bind c loc _ (VMod id path a) s1) as [loc2 s2] eqn:Eb.
       injection E as <- <- <-. eapply bind_wlog; eassumption.
-    - destruct (from_all run T exts c ps (rev (map fst imps)) s) as [[vs o1] s1] eqn:E1.
-      pose proof (from_all_wlog run Hrun Hrun4 c ps _ s vs o1 s1 H W E1) as W1.
+    - destruct (from_all run T exts c ps (Nat.ltb 1 (length (map fst imps))) (rev (map fst imps)) [] s) as [[vs o1] s1] eqn:E1.
+      pose proof (from_all_wlog run Hrun Hrun4 c ps _ _ _ s vs o1 s1 H W E1) as W1.
       destruct vs as [vs|]; [|injection E as <- <- <-; exact W1].
-      destruct (bind_all c loc (map (from_alias imps) (map fst imps)) (rev vs) s1) as [loc2 s2] eqn:Eb.
+      destruct (bind_all c loc (map (from_alias imps) (map fst imps)) vs s1) as [loc2 s2] eqn:Eb.
       injection E as <- <- <-. eapply bind_all_wlog; eassumption.
     - (* x = v: the write goes to the executing code's own array *)
       injection E as <- <- <-. intros a who [X|Hin]; [|exact (W a who Hin)].
       injection X as <- <-. exact F.
-    - destruct (eval_path c loc p s) as [[z|id n0 a|b|]|e]; try (injection E as <- <- <-; exact W).
-      destruct (lookup x (arr_env a s)); injection E as <- <- <-; exact W.
+    - injection E as <- <- <-. exact W.
+    - destruct (eval_path c loc p s) as [[z|id n0 a|b| |]|e]; try (injection E as <- <- <-; exact W).
+      destruct (lookup (setter x) (arr_env a s)) as [[| | | |]|]; injection E as <- <- <-; exact W.
     - destruct e as [p|p q].
       + destruct (eval_path c loc p s); injection E as <- <- <-; exact W.
       + destruct (eval_path c loc p s); destruct (eval_path c loc q s); injection E as <- <- <-; exact W.
